@@ -1012,8 +1012,9 @@ def join_laws(interp, path, sep, t, res):
     path.define(z3.Implies(n == 1, zj == seqz[0]))
     f = uf(interp, f'py.split[{sep!r}]', z3.StringSort(), z3.SeqSort(z3.StringSort()))
     path.define(z3.Implies(n >= 1, f(zj) == seqz))
-    for c in ('.', ':'):
-        if c not in sep:
+    interp.__dict__.setdefault('_join_reg', {})[zj.get_id()] = (sep, t, zj, seqz)
+    for c in ('.', ':', '::'):
+        if c not in sep and sep not in c:
             if sub.entails(z3.Implies(inr, z3.Not(z3.Contains(seqz[i0], z3.StringVal(c))))):
                 path.define(z3.Not(z3.Contains(zj, z3.StringVal(c))))
 
@@ -1036,6 +1037,10 @@ def _s_split(interp, path, args, kw):
         return SeqV(SeqT([LitB(items)]))
     if not isinstance(sep, str) or not sep:
         raise Unsupported('split with symbolic separator')
+    reg = getattr(interp, '_join_reg', {}).get(to_zstr(s).get_id())
+    if reg is not None and reg[0] == sep and path.entails(z3.Length(reg[3]) >= 1):
+        # split(sep.join(L), sep) == L  (law of join_laws, side conditions proved there)
+        return SeqV(reg[1])
     f = uf(interp, f'py.split[{sep!r}]', z3.StringSort(), z3.SeqSort(z3.StringSort()))
     from .sorts import TypeDesc
     base = f(to_zstr(s))
@@ -1280,10 +1285,30 @@ def _l_pop(interp, path, args, kw):
     lst = args[0]
     if lst.frozen:
         interp.frame_violation(path, lst, 'pop')
-    if len(args) > 1:
-        raise Unsupported('pop(index)')
     t = mkseq(lst.term.blocks)
     interp.journal_write(path, lst, ('pop', None))
+    if len(args) > 1:
+        if args[1] != 0:
+            raise Unsupported('pop(index) with an index other than 0')
+        if t.blocks and isinstance(t.blocks[0], LitB):
+            items = t.blocks[0].items
+            lst.term = mkseq([LitB(items[1:])] + list(t.blocks[1:]))
+            return items[0]
+        if not t.blocks:
+            interp.raise_builtin('IndexError', 'pop from empty list')
+        z = interp.to_zseq(t)
+        if z is None:
+            raise Unsupported('pop(0) on symbolic list')
+        n = z3.Length(z)
+        if not path.branch(n > 0):
+            interp.raise_builtin('IndexError', 'pop from empty list')
+        td = _elem_td(interp, t)
+        if td is None:
+            from .sorts import TypeDesc
+            td = TypeDesc('str')
+        first = interp.wrap_elem(td, ops.nth(z, z3.IntVal(0)))
+        lst.term = interp.seq_of_base(ops.subseq(z, 1, n - 1), td, path)
+        return first
     if t.blocks and isinstance(t.blocks[-1], LitB):
         items = t.blocks[-1].items
         lst.term = mkseq(list(t.blocks[:-1]) + [LitB(items[:-1])])
